@@ -49,6 +49,9 @@ func baseAlphabet(keys []int, cfg CacheCfg, rich bool) []string {
 				a = append(a, fmt.Sprintf("set %d 5", k))
 			}
 		}
+		if cfg.Expiry == "custom" && rich {
+			a = append(a, fmt.Sprintf("set %d 1 ttl=-1", k)) // the calculator declines: the entry gets no deadline
+		}
 		if cfg.Expiry != "" {
 			a = append(a, fmt.Sprintf("sea %d 30", k))
 			if rich {
